@@ -170,6 +170,19 @@ NETS = {
             ("sum", {"PS-A": 1, "PS-B": 1, "PS-C": 1}, 60.7),
         ],
     },
+    # N14: a site entirely on ONE phase with a non-zero angle (all currents share the factor exp(-i 120 deg))
+    "N14": {
+        "stations": {
+            "PS-A": (("cont", 0, 32), 208, -120),
+            "PS-B": (("cont", 0, 32), 208, -120),
+            "PS-C": (("cont", 0, 32), 240, -120),
+        },
+        "constraints": [
+            ("unb", {"PS-A": 1, "PS-B": -1}, 12.3),
+            ("sum", {"PS-A": 1, "PS-B": 1, "PS-C": 1}, 60.7),
+            ("lc", {"PS-C": 1, "PS-A": -0.5}, 30.1),
+        ],
+    },
     # N9: an EVSE WITHOUT a maximum rate (EVSE(id): max = inf) next to a pod whose breaker does not involve it
     "N9": {
         "stations": {
